@@ -409,6 +409,7 @@ def _map_timezones():
     """
     tz_map = {}
     todo = HAYSTACK_TIMEZONES_SET.copy()
+    nested = []
     for full_tz in pytz.all_timezones:
         # Finished case:
         if not bool(todo): # pragma: no cover
@@ -426,14 +427,22 @@ def _map_timezones():
             continue
 
         (prefix, suffix) = full_tz.split('/',1)
-        # Case 2 exception: full timezone contains more than one '/' -> ignore
+        # Case 3: more than one '/' (America/Indiana/Knox): Haystack names the
+        # city, the last part.  Looked at after all the two-part names.
         if '/' in suffix:
+            nested.append(full_tz)
             continue
 
         if suffix in todo:
             tz_map[suffix] = full_tz
             todo.discard(suffix)
             continue
+
+    for full_tz in nested:
+        city = full_tz.rsplit('/',1)[1]
+        if city in todo:
+            tz_map[city] = full_tz
+            todo.discard(city)
 
     return tz_map
 
